@@ -146,7 +146,9 @@ type countRC struct {
 	once   sync.Once
 }
 
-func newCountRC(b []byte) *countRC { return &countRC{r: bytes.NewReader(b), closed: make(chan struct{})} }
+func newCountRC(b []byte) *countRC {
+	return &countRC{r: bytes.NewReader(b), closed: make(chan struct{})}
+}
 func (c *countRC) Read(p []byte) (int, error) { return c.r.Read(p) }
 func (c *countRC) Close() error {
 	atomic.AddInt32(&c.closes, 1)
@@ -203,7 +205,6 @@ type env struct {
 	uniq    int
 	used    map[string]bool
 	dirOf   map[disk.Cache]string
-	f33     bool
 }
 
 var discard = log.New(io.Discard, "", 0)
@@ -211,10 +212,7 @@ var discard = log.New(io.Discard, "", 0)
 func (e *env) newDisk(mode string, p cache.Proxy, maxProxy int64) disk.Cache {
 	e.dirs++
 	dir := fmt.Sprintf("%s/c%d", e.base, e.dirs)
-	opts := []disk.Option{disk.WithAccessLogger(discard), disk.WithStorageMode(mode), disk.WithProxyBackend(p)}
-	if maxProxy != bigProxy {
-		opts = append(opts, disk.WithProxyMaxBlobSize(maxProxy))
-	}
+	opts := []disk.Option{disk.WithAccessLogger(discard), disk.WithStorageMode(mode), disk.WithProxyBackend(p), disk.WithProxyMaxBlobSize(maxProxy)}
 	c, err := disk.New(dir, cacheMax, opts...)
 	if err != nil {
 		panic(err)
@@ -335,11 +333,11 @@ func (e *env) reprOf(m int, kind cache.EntryKind, data []byte, hash string) []by
 // ---- entries
 
 type entry struct {
-	kind    cache.EntryKind
-	data    []byte // logical content
-	hash    string
-	repr    [2][]byte // stored representation per storage mode (lazily)
-	parses  bool      // AC/RAW: proto.Unmarshal as ActionResult succeeds
+	kind   cache.EntryKind
+	data   []byte // logical content
+	hash   string
+	repr   [2][]byte // stored representation per storage mode (lazily)
+	parses bool      // AC/RAW: proto.Unmarshal as ActionResult succeeds
 }
 
 func (e *env) mkEntry(kind cache.EntryKind, size int, compressible bool) *entry {
@@ -496,12 +494,12 @@ type hasObs struct {
 
 func (h hasObs) term() string {
 	if h.panicked {
-		return "(HasPanic \"\")"
+		return "ObsPanic"
 	}
 	if !h.ok {
-		return "HasNo"
+		return "ObsNo"
 	}
-	return "(HasYes " + CZ(h.size) + ")"
+	return "(ObsYes " + CZ(h.size) + ")"
 }
 
 type containser interface {
